@@ -70,6 +70,12 @@ def discharge(F, inst, ev, kind):
             tgt = next((t for t in ta if t.startswith("heapless::string::String<")), None)
             arg = H.call_args(n)[0] if H.call_args(n) else None
             lit = H.lit(arg) if arg is not None else None
+            if lit is None and arg is not None:
+                a2 = H.strip(arg)
+                if a2.get("k") == "path" and (a2["res"].get("rk") or "").startswith(("Const", "AssocConst")):
+                    cv = F.const_value(a2["res"].get("path") or "")
+                    if isinstance(cv, str):
+                        lit = cv      # a named string constant, evaluated by rustc
             m = re.match(r"^heapless::string::String<(\d+)>$", tgt or "")
             if isinstance(lit, str) and m and len(lit.encode()) <= int(m.group(1)):
                 return "B-cap-lit", "String::<%s>::from(%r): the literal has %d bytes" % (m.group(1), lit, len(lit.encode()))
